@@ -193,3 +193,75 @@ def c13(pc):
                       f"request n={served} returned {r}, expected {cur + served % 10}")
                 return {"native_sweep": {"histories_checked": checked}}
     return {"native_sweep": {"histories_checked": checked, "depth": depth, "exhaustive": True, "long_runs_of": 1200}}
+
+
+def c05(pc):
+    """bounded-exhaustive operation histories: the real EoReader against xmlsem's independent reader
+    model (data over {00, 01, FE, FF}; reads, over-reads, mode switches, next_chunk, fixed strings)"""
+    pc.native()
+    rd = importlib.import_module("eolib.data.eo_reader")
+    from xmlsem.concrete import RState, dec_int, cp_dec
+    alpha = [0x00, 0x01, 0xFE, 0xFF]
+    maxlen, maxops = (3, 3) if pc.tier == "quick" else (5, 4)
+    ops = [("byte",), ("char",), ("short",), ("int",), ("string",), ("mode", True), ("mode", False), ("next",),
+           ("fixed", 2, False), ("fixed", 2, True), ("bytes", 1), ("bytes", 0)]
+    checked = 0
+    for n in range(maxlen + 1):
+        for data in itertools.product(alpha, repeat=n):
+            data = bytes(data)
+            for hist in itertools.product(ops, repeat=maxops):
+                r = rd.EoReader(data)
+                m = RState(data, False)
+                started = False
+                ok = True
+                for op in hist:
+                    try:
+                        if op[0] == "byte":
+                            b = m.take(1)
+                            got, want = r.get_byte(), (b[0] if b else 0)
+                        elif op[0] == "char":
+                            got, want = r.get_char(), dec_int(m.take(1))
+                        elif op[0] == "short":
+                            got, want = r.get_short(), dec_int(m.take(2))
+                        elif op[0] == "int":
+                            got, want = r.get_int(), dec_int(m.take(4))
+                        elif op[0] == "string":
+                            got, want = r.get_string(), cp_dec(m.take(m.rem()))
+                        elif op[0] == "bytes":
+                            got, want = bytes(r.get_bytes(op[1])), m.take(op[1])
+                        elif op[0] == "fixed":
+                            b = m.take(op[1])
+                            if op[2]:
+                                i = b.find(b"\xff")
+                                b = b[:i] if i >= 0 else b
+                            got, want = r.get_fixed_string(op[1], op[2]), cp_dec(b)
+                        elif op[0] == "mode":
+                            r.chunked_reading_mode = op[1]
+                            m.chunked = op[1]
+                            got = want = None
+                        elif op[0] == "next":
+                            if not m.chunked:
+                                try:
+                                    r.next_chunk()
+                                    got, want = "returned", "RuntimeError"
+                                except RuntimeError:
+                                    got = want = None
+                            else:
+                                r.next_chunk()
+                                m.next_chunk()
+                                got = want = None
+                    except Exception as e:
+                        got, want = "raised " + repr(e), "no exception"
+                    state_ok = (r.position == m.pos and r.remaining == m.rem() and 0 <= r.position <= len(data)
+                                and r.remaining >= 0)
+                    if got != want or not state_ok:
+                        _fail(pc, "eolib.data.eo_reader.EoReader." + {"byte": "get_byte", "char": "get_char", "short": "get_short",
+                              "int": "get_int", "string": "get_string", "bytes": "get_bytes", "fixed": "get_fixed_string",
+                              "mode": "chunked_reading_mode.setter", "next": "next_chunk"}[op[0]],
+                              {"data": {"__bytes__": list(data), "mutable": False}, "history": [str(o) for o in hist]},
+                              f"after {op}: returned {got!r} (model {want!r}); position {r.position} (model {m.pos}), "
+                              f"remaining {r.remaining} (model {m.rem()})")
+                        return {"native_sweep": {"histories_checked": checked}}
+                checked += 1
+    return {"native_sweep": {"histories_checked": checked, "data_len_up_to": maxlen, "ops_per_history": maxops,
+                             "alphabet": "00 01 FE FF", "exhaustive": True}}
